@@ -410,6 +410,11 @@ PROPS['C07'] = dict(
         O('C07.update_metadata_active', 'harness.c07_equiv', 'update_metadata_active', 500, 1200,
           'UpdateMetadata on an active study: both back ends = last-writer-wins oracle; an update naming a missing trial '
           'reports an error and changes nothing on either', '1..2 updates over 3 (ns,key) pairs x {study, trial 1, 2, missing}'),
+        O('C07.history3', 'harness.c07_equiv', 'eq_history3', 500, None,
+          'every history of 3 calls from a menu of 14 (create / suggest by two workers / complete, delete, stop the newest / '
+          'delete the oldest / study state changes / delete and re-create the study / metadata / list) gives the same '
+          'responses, error classes and stored state on RAM and SQL after every call -- state that only builds up along a '
+          'sequence, e.g. id allocation after deletes', '14^3 histories from a fixed 2-trial pre-state', no_validate=True),
         O('C07.update_metadata_bad_id', 'harness.c07_equiv', 'update_metadata_bad_id', 200, 600,
           'an UpdateMetadata naming an impossible trial id (0, -1, non-numeric, path-like) next to a valid item: same error '
           'class on both datastores, nothing stored, nothing left uncommitted'),
@@ -427,6 +432,12 @@ PROPS['C07'] = dict(
         for k in range(10)
     ])
 
+PROPS['C07']['obligations'] += [
+    O('C07.history4_o%d' % k, 'harness.c07_equiv', 'eq_history4', None, 1200,
+      'same for histories of 4 calls, first call = menu entry %d' % k, '14^3 histories per slice',
+      env={'VERIF_SLICE': str(k)}, no_validate=True)
+    for k in range(14)
+]
 PROPS['C10']['encoded'] += ['VizierServicer.UpdateMetadata', 'NestedDictRAMDataStore.update_metadata',
                             'SQLDataStore.update_metadata', 'metadata_util.merge_study_metadata/merge_trial_metadata']
 PROPS['C10']['obligations'] += [
